@@ -13,7 +13,7 @@ RULE = ("behaviours = all API call sequences of the stated depth over the GenTR 
 
 def run(chk):
     tc.model_check(chk, chk.tier == "quick")
-    tc.standard_plan(chk, "C03", "nt_C03")
+    tc.standard_plan(chk, "C03", "nt_C03", kinds_quick=("sort", "batchsort"))
     chk.assumptions.append("ids are compared literally for the simple trackers and modulo renaming for the batch trackers")
     # VisualSORT with the own-area options on (another code path before the epoch is advanced), lifecycle calls included
     r, c = tc.generate_visual(chk, "v-own-lifecycle", depth=4, OwnUse=50, OwnCollect=50, LifecycleOps=True, MaxIdle=1,
@@ -27,7 +27,7 @@ def run(chk):
         kind = ("sort", "visual", "batchsort", "batchvisual")[i % 4]
         t = r2.record(chk, f"r2-{i}", kind, chk.seed * 1000 + 100 + i, steps=150 if chk.tier == "quick" else 400, shards=1 + i % 3,
                       metric="iou" if i % 2 == 0 else "maha", max_idle=(0, 1, 2, 3)[i % 4], objects=3 + i % 2, spread=90,
-                      scenes="0,7,8" if i % 2 else "0,7")
+                      scenes="0,7,8" if i % 2 else "0,7", history=(3, 2, 1, 4)[i % 4])    # history length never equals the idle limit
         chk.cov["evaluations"] += r2.trace_stats(t)["events"]
         traces.append(t)
     r2.validate_all(chk, traces, "C03")
